@@ -44,6 +44,8 @@ func init() {
 	replays["c02"] = c02.Replay
 	parts["c01"] = c01.Run
 	replays["c01"] = c01.Replay
+	parts["c01long"] = c01.RunLong
+	replays["c01long"] = c01.ReplayLong
 	parts["c17"] = c17.Run
 	replays["c17"] = c17.Replay
 }
